@@ -308,6 +308,18 @@ export_case(token_for([KEYS[7], KEYS[8], KEYS[0]]), ks, None, "carry", "key-tag-
 ks = {"a": ceremony.ksk_def(KEYS[9], valid_from=t0), "b": ceremony.ksk_def(KEYS[10], valid_from=t0 + dt.timedelta(days=2))}
 for wrapped in (True, False):
     export_case([[{"id": 0, "objs": S.pair(KEYS[9]["id"], KEYS[9], ec_wrapped=wrapped) + S.pair(KEYS[10]["id"], KEYS[10], ec_wrapped=wrapped)}]], ks, None, "x04", "ec-x-starts-with-04")
+# RSA public exponents of every length form of RFC 3110 (one length octet up to 255 octets, three beyond): public objects given by their raw attributes
+import PyKCS11.LowLevel as _LL
+for elen in (1, 3, 4, 254, 255, 256, 257):
+    n_ = int.from_bytes(b"\xc1" + bytes(R.randrange(256) for _ in range(126)) + b"\x0b", "big")
+    e_ = int.from_bytes(bytes([R.randrange(1, 256)]) + bytes(R.randrange(256) for _ in range(elen - 2)) + b"\x01", "big") if elen > 1 else 3
+    eb, nb_ = e_.to_bytes(elen, "big"), n_.to_bytes(128, "big")
+    pubf = (bytes([elen]) if elen <= 255 else b"\0" + elen.to_bytes(2, "big")) + eb + nb_
+    kd = {"id": f"Kexp{elen}", "alg": 8, "flags": 257, "pub": pubf, "priv": None, "ttl": 172800}
+    kd["tag"] = ksrxml.keytag(ksrxml.rdata(257, 3, 8, pubf))
+    po = S.obj(kd["id"], "pub", kd, ktype=_LL.CKK_RSA, extra={_LL.CKA_MODULUS: tuple(nb_), _LL.CKA_PUBLIC_EXPONENT: tuple(eb)})
+    ks = {"a": {"description": "KSK with a long exponent", "label": kd["id"], "algorithm": "RSASHA256", "valid_from": t0, "rsa_size": 1024, "rsa_exponent": e_}}
+    export_case([[{"id": 0, "objs": [po]}]], ks, None, f"exp{elen}", "rsa-exponent-length")
 for ttl in (0, 3600, 2**31 - 1):
     export_case(token_for([KEYS[0]]), {"a": ceremony.ksk_def(KEYS[0], valid_from=t0)}, None, "ttl", "ttl", ttl=ttl)
 
